@@ -383,3 +383,63 @@ Proof. exact parse_encode_path. Qed.
 Check as_path_view_unambiguous :
   forall p, wf_path p -> parse_path (encode_path p) = Some p.
 Print Assumptions as_path_view_unambiguous.
+
+(* (9c) The general form of the re-advertisement, for ANY change and export map
+   (not only the one-path scenario): when a change with any_changed arrives for a
+   destination all of whose paths are LLGR-stale, everything the neighbour holds for
+   it is re-advertised or withdrawn, so that what it holds afterwards carries
+   LLGR_STALE. *)
+Theorem llgr_view_refreshed :
+  forall x pol emax raddr cid c e r pid v0 v,
+    policy_keeps_decodable pol ->
+    (forall p, In p (c_paths c) -> decodable (p_attrs p) /\ src_llgr (p_src p) = true) ->
+    c_any_changed c = true ->
+    (if emax =? 1 then pid = 0 /\ c_paths c <> [] /\ em_was_sent e (c_dest c) = true
+     else was_sent_path e (c_dest c) pid) ->
+    process_change x pol emax raddr cid c e = Ok r ->
+    view_after (fst r) (c_dest c) pid v0 = Some v -> carries_llgr_stale v.
+Proof. exact C09_llgr_view_refreshed. Qed.
+Check llgr_view_refreshed :
+  forall x pol emax raddr cid c e r pid v0 v,
+    policy_keeps_decodable pol ->
+    (forall p, In p (c_paths c) -> decodable (p_attrs p) /\ src_llgr (p_src p) = true) ->
+    c_any_changed c = true ->
+    (if emax =? 1 then pid = 0 /\ c_paths c <> [] /\ em_was_sent e (c_dest c) = true
+     else was_sent_path e (c_dest c) pid) ->
+    process_change x pol emax raddr cid c e = Ok r ->
+    view_after (fst r) (c_dest c) pid v0 = Some v -> carries_llgr_stale v.
+Print Assumptions llgr_view_refreshed.
+
+Theorem llgr_refresh_addpath :
+  forall x pol emax raddr cid c e r pid,
+    emax <> 1 -> process_change x pol emax raddr cid c e = Ok r ->
+    c_any_changed c = true ->
+    (forall p, In p (c_paths c) -> src_llgr (p_src p) = true) ->
+    was_sent_path e (c_dest c) pid ->
+    exists op, In op (fst r) /\ touches (c_dest c) pid op = true.
+Proof. exact C09_llgr_refresh_addpath. Qed.
+Check llgr_refresh_addpath :
+  forall x pol emax raddr cid c e r pid,
+    emax <> 1 -> process_change x pol emax raddr cid c e = Ok r ->
+    c_any_changed c = true ->
+    (forall p, In p (c_paths c) -> src_llgr (p_src p) = true) ->
+    was_sent_path e (c_dest c) pid ->
+    exists op, In op (fst r) /\ touches (c_dest c) pid op = true.
+Print Assumptions llgr_refresh_addpath.
+
+Theorem llgr_refresh_best_only :
+  forall x pol raddr cid c e r,
+    process_change x pol 1 raddr cid c e = Ok r ->
+    c_any_changed c = true -> c_paths c <> [] ->
+    (forall p, In p (c_paths c) -> src_llgr (p_src p) = true) ->
+    em_was_sent e (c_dest c) = true ->
+    exists op, In op (fst r) /\ touches (c_dest c) 0 op = true.
+Proof. exact C09_llgr_refresh_best_only. Qed.
+Check llgr_refresh_best_only :
+  forall x pol raddr cid c e r,
+    process_change x pol 1 raddr cid c e = Ok r ->
+    c_any_changed c = true -> c_paths c <> [] ->
+    (forall p, In p (c_paths c) -> src_llgr (p_src p) = true) ->
+    em_was_sent e (c_dest c) = true ->
+    exists op, In op (fst r) /\ touches (c_dest c) 0 op = true.
+Print Assumptions llgr_refresh_best_only.
